@@ -31,6 +31,10 @@ def matcher(module, only_known=True):
             if bp is not None and not bucket.startswith(bp):
                 continue
             reg = e.get("region")
+            if e.get("scope") == "bucket" and (b is not None or bp is not None):
+                # the bucket itself is specific to the defect's shape (the check only emits it when the
+                # observed value has exactly the recorded wrong form)
+                return e["id"]
             if reg:
                 fn = regions.get(reg)
                 if fn is None:
